@@ -9,6 +9,7 @@ judge what came back:
   (4) `llvm-mc --disassemble` of AsmJit's word as tie-breaker / alternate-encoding detector; MOV sequences are
       checked by interpreting LLVM's disassembly of every word.
 """
+import collections
 import json
 import os
 import re
@@ -369,6 +370,62 @@ def rec_id(rec):
 
 def sig(rec):
     return "%s %s" % (rec["name"], ", ".join(o["data"] for o in rec["operands"] if o["data"] not in ("", "+")))
+
+
+def judge_refusals(chk, tier, scale=1.0):
+    """C14's AArch64 half: every generated case whose operands are unencodable (status 'bad': register id / lane / shift /
+    immediate / offset / alignment out of the form's range, pairwise constraints included) must be refused with an error,
+    the handler called once, and nothing appended or created. Same generator, driver and LLVM cross-examination as C02
+    (a 'bad' marking that LLVM refutes by assembling the text is no verdict). Returns counters."""
+    exe = build.build_driver("drv_emit_a64", "asan")
+    recs = isadb.a64_forms()
+    encn = encoding_names()
+    labels = emit_labels()
+    rc, out, err = common.run_child([exe, "--names", "1"], timeout=300)
+    known = set()
+    for ln in out.decode().splitlines():
+        p = ln.split()
+        if p and int(p[-1].split("=")[1]) in [int(x) for x in p[1:-1]]:
+            known.add(p[0])
+    if len(known) < 100:
+        raise common.HarnessError("driver lists only %d instruction names" % len(known))
+    nrandom = max(1, int((300 if tier == "thorough" else 8) * scale))
+    cases, _ = a64gen.generate(recs, chk.seed, tier, known, nrandom=nrandom)
+    cases = [c for c in cases if c["status"] == "bad"]
+    if not cases:
+        raise common.HarnessError("generator produced no unencodable AArch64 cases")
+    nshards = 16 if len(cases) > 2000 else 1
+    results = common.parallel_map(lambda sh: run_shard(exe, sh, recs), [cases[i::nshards] for i in range(nshards)])
+    cnt = collections.Counter()
+    kinds = set()
+    for res in results:
+        if "sanitizer" in res:
+            rep = res["sanitizer"]
+            top = next((f for f in rep["frames"] if "asmjit" in f), rep["frames"][0] if rep["frames"] else "?")
+            chk.violation("sanitizer:%s:%s" % (rep["kind"].split(" on ")[0][:60], top.split("(")[0][:80]), "sanitizer report in drv_emit_a64: %s %s" % (rep["kind"], rep["frames"][:5]), None)
+            continue
+        for c in res["cases"]:
+            r = c["r"]
+            rec = recs[c["rec"]]
+            enc = encn.get(r["enc"], str(r["enc"]))
+            replay = {"a64cases": [{k: c.get(k) for k in ("rec", "vclass", "status", "what", "opidx", "line", "text")}]}
+            cnt["a64_unencodable_cases"] += 1
+            kinds.add((enc, c["what"]))
+            if r["err"] != 0:
+                cnt["a64_refused"] += 1
+                if r["bytes"] or r["df"] or r["dr"]:
+                    chk.violation("a64:failed-call:appended-or-created:%s" % enc, "%s -> error %d but bytes=%s fixups+%d relocations+%d" % (c["line"], r["err"], r["bytes"], r["df"], r["dr"]), replay)
+                if r["h"] != 1:
+                    chk.violation("a64:failed-call:handler-called-%d-times" % r["h"], "%s -> error %d, handler called %d times" % (c["line"], r["err"], r["h"]), replay)
+                continue
+            if c["llvm"] is not None:
+                cnt["a64_marking_refuted_by_llvm"] += 1
+                continue
+            dtxt = c["dis"][0] if c["dis"] else None
+            chk.violation(site_key(labels, enc, c["opidx"], c["what"]),
+                          "%s [%s] is unencodable (%s) but emit() returned kOk and appended %s (LLVM reads that as `%s`)" % (c["line"], sig(rec), c["what"], r["bytes"], dtxt), replay)
+    cnt["a64_unencodable_kinds"] = len(kinds)
+    return dict(cnt)
 
 
 def run(tier, args):
